@@ -79,8 +79,13 @@ def cases(draw, isa, archs):
     bases, idxs = (X_BASES, X_IDX) if isa == "x86" else (A_BASES, A_IDX)
     store = draw(addr(isa, bases, idxs, True))
     lines = []
-    unrelated = (["vaddpd %xmm1, %xmm2, %xmm3", "addq $1, %r12", "vmulpd %xmm4, %xmm5, %xmm6"] if isa == "x86"
-                 else ["fadd d1, d2, d3", "add x12, x12, #1", "fmul d4, d5, d6"])
+    # unrelated lines include the bump/copy mnemonics on other register classes (no address register involved)
+    unrelated = (["vaddpd %xmm1, %xmm2, %xmm3", "addq $1, %r12", "vmulpd %xmm4, %xmm5, %xmm6", "movq %xmm4, %r10",
+                  "movq %r10, %xmm7", "addl $1, %r15d", "decl %r15d"] if isa == "x86"
+                 else ["fadd d1, d2, d3", "add x12, x12, #1", "fmul d4, d5, d6", "add w15, w15, #1",
+                       "sub w16, w16, #4", "mov v4.16b, v5.16b", "mov w16, w17", "add v1.2d, v2.2d, v3.2d"])
+    for _ in range(draw(st.integers(0, 1))):
+        lines.append({"k": "nop", "text": draw(st.sampled_from(unrelated[3:]))})
     for _ in range(draw(st.integers(0, 2))):
         lines.append({"k": "nop", "text": draw(st.sampled_from(unrelated))})
     # x86: the store is a plain mov or a read-modify-write instruction (addq $1 / incq / subq %rcx: flag destinations
